@@ -261,6 +261,11 @@ def Payload.deepWFZip : List Ty → List Payload → Bool
   | _, _ => true
 end
 
+/-- **the carrier of the `Equals` theorems for values with sets**: well-formed,
+mark-free, quotable, wholly known, integer numbers, every set node well-formed -/
+def Payload.deepMember (t : Ty) (p : Payload) : Bool :=
+  p.shaped t && !p.containsMarked && p.quotable && p.whollyKnown && p.intNums && Payload.deepWF t p
+
 /-! ### capsule types -/
 
 /-- The operations of a capsule type that `Equals`, `RawEquals` and the set hash
